@@ -42,6 +42,7 @@ DOCX_FEATURES = {
     "image-rel-order": "image relationships listed in reverse document order (twin: document order)",
     "text-before-first-heading": "body paragraphs before the first heading (twin: they follow the heading)",
     "table-cell-multi-para": "table cell with two paragraphs (twin: one paragraph)",
+    "empty-section": "a heading directly followed by a heading of the same level, i.e. a section without body text (twin: one paragraph between them)",
 }
 PPTX_FEATURES = {
     "slide-target-absolute": "presentation rel target /ppt/slides/slideN.xml (twin: slides/slideN.xml)",
@@ -143,7 +144,7 @@ def build_docx(seed: int, feature: str | None = None, twin: bool = False):
     rels = [("rIdStyles", REL_T + "styles", "styles.xml", None)]
     parts: dict[str, bytes] = {}
     images: list[dict] = []
-    use_headings = rng.random() < 0.6 or feature == "text-before-first-heading"
+    use_headings = rng.random() < 0.6 or feature in ("text-before-first-heading", "empty-section")
     n_blocks = rng.randint(3, 12)
     comments: list[tuple[int, str]] = []
     footnotes: list[tuple[int, str]] = []
@@ -350,6 +351,10 @@ def _docx_feature(feature, twin, rng, tk, exp, unit, words, para, table, image_p
         return xml
     if feature == "text-before-first-heading":
         return ""
+    if feature == "empty-section":
+        def h():
+            return f'<w:p><w:pPr><w:pStyle w:val="Heading1"/></w:pPr>{_wr(" ".join(exp.text(tk.new("h"), unit, True) for _ in range(rng.randint(1, 2))))}</w:p>'
+        return h() + (para() if twin else "") + h() + para()
     raise ValueError(feature)
 
 
